@@ -1,4 +1,4 @@
 From Coq Require Import Extraction ExtrOcamlBasic.
 Require Import NixV.Base.Prelude NixV.Base.F64 NixV.Data.NDIndex NixV.Data.NDArr NixV.Data.NDSpec.
 Extraction Language OCaml.
-Extraction "model_C01.ml" start step spec_start spec_step nan_cast_why route_op s_shape.
+Extraction "model_C01.ml" start step spec_start spec_step nan_cast_why route_op s_shape create_fill create_fill_rolls_back spec_create_fill nd_index string_to_dtype_name apply_poly.
